@@ -97,6 +97,17 @@ fn var_cases(tier: Tier) -> Vec<Case> {
                 let in_specs = format!("<specs><var v=\"{}\"/></specs><text class=\"body\" text=\"x\"/>", "e".repeat(n));
                 let (doc, cfg_l) = with_limit("var-limit", l, via, &in_specs);
                 v.push(mk(doc, 1000, if via { 1024 } else { cfg_l }, 100, if ok { Some(1) } else { None }, format!("var:direct-in-specs:L={l}:len={n}:{}", if via { "config-element" } else { "config" })));
+                // the length of a value is its number of characters, whatever they are
+                for fill in ["\u{e9}", "\u{65e5}", "\u{1f600}"] {
+                    let direct = format!("<var v=\"{}\"/><text class=\"body\" text=\"$v\"/>", fill.repeat(n));
+                    let (doc, cfg_l) = with_limit("var-limit", l, via, &direct);
+                    v.push(mk(doc, 1000, if via { 1024 } else { cfg_l }, 100, if ok { Some(1) } else { None }, format!("var:direct-non-ascii:L={l}:len={n}:{}", if via { "config-element" } else { "config" })));
+                    if l >= 4 {
+                        let doc = format!("<specs><text id=\"t\" class=\"body\" text=\"$m\"/></specs><reuse href=\"#t\" m=\"{}\"/>", fill.repeat(n));
+                        let (doc, cfg_l) = with_limit("var-limit", l, via, &doc);
+                        v.push(mk(doc, 1000, if via { 1024 } else { cfg_l }, 100, if ok { Some(1) } else { None }, format!("var:reuse-attr-non-ascii:L={l}:len={n}:{}", if via { "config-element" } else { "config" })));
+                    }
+                }
                 // attributes of a <reuse> become variables of the instance: given directly, and by expansion
                 // (every attribute of the reuse element is such a variable, href="#t" included: only limits that admit it)
                 if l < 4 {
@@ -281,7 +292,7 @@ impl Property for C17 {
         "C17"
     }
     fn rule(&self) -> String {
-        "bounded-exhaustive boundary triples: for every limit value L in {0|1, 2, 3, 5, 17, default} (thorough: every L <= 40) and every form - loops (count, count with loop-var, while, until, for, nested), variable values (given directly, by concatenation, by doubling in a loop), nesting depth (9 container kinds, text with tspans, random mixtures; reuse self- and mutual recursion; shallow reuse chains) - documents at L-1, L and L+1, with the limit set by configuration and by a <config> element; \
+        "bounded-exhaustive boundary triples: for every limit value L in {0|1, 2, 3, 5, 17, default} (thorough: every L <= 40) and every form - loops (count, count with loop-var, while, until, for, nested), variable values (given directly - ASCII and 2-, 3-, 4-byte characters -, by concatenation, by doubling in a loop), nesting depth (9 container kinds, text with tspans, random mixtures; reuse self- and mutual recursion; shallow reuse chains) - documents at L-1, L and L+1, with the limit set by configuration and by a <config> element; \
          plus the length family: flat documents of N in {50, 99, 100, 101, 500, 2000 (thorough: up to 20000)} siblings of 12 element kinds at nesting 1-3 under depth-limit 100 and 6, and of N siblings that each hold a forward reference (failed attempts are retried). \
          Oracle (two-sided): within the limit the transform is Ok and renders exactly the requested number of bodies (nothing truncated); beyond it the transform fails (never Ok, never a crash); flat documents are always Ok. \
          Non-trivial = every case (each is a boundary or length probe); distinct by hash of the case."
